@@ -108,6 +108,22 @@ fn run<S: SX, V: VX, St: SigStore<S, V>>(mut st: St, s: u32, items: &[(S, V)]) -
     if ShardStore::len(&sh) != items.len() {
         errs.push(("ShardStore::len", format!("{} expected {}", ShardStore::len(&sh), items.len())));
     }
+    // borrowed iterations abandoned after k shards (k = 1, half, all but one, 0), each followed by a complete
+    // one: an abandoned pass must leave nothing behind (file cursors, buffers) that the next pass trusts
+    let total = 1usize << s;
+    for (round, k) in [1usize, total / 2, total.saturating_sub(1), 0].into_iter().enumerate() {
+        for (j, a) in sh.iter().take(k).enumerate() {
+            if norm(&a) != expect(j) {
+                errs.push(("ShardStore::iter", format!("abandoned pass {round}: shard {j} wrong")));
+                break;
+            }
+        }
+        let shards: Vec<Vec<Item>> = sh.iter().map(|a| norm(&a)).collect();
+        if shards.len() != total || shards.iter().enumerate().any(|(j, v)| *v != expect(j)) {
+            errs.push(("ShardStore::iter", format!("the pass after a borrowed iteration abandoned after {k} of {total} shards yields {} shards / wrong contents", shards.len())));
+            break;
+        }
+    }
     for round in 0..2 {
         let shards: Vec<Vec<Item>> = sh.iter().map(|a| norm(&a)).collect();
         if shards.len() != 1 << s {
